@@ -101,7 +101,11 @@ func pickProject(r *Rand, corpusShare int) *Project {
 			s += nl
 		}
 		for i := 0; i < r.Range(1, 2); i++ {
-			s += strings.ReplaceAll(defectBlock("notation-mix", 70+i, r), "\n", nl)
+			kind := "notation-mix"
+			if r.Chance(1, 3) {
+				kind = "hostile-paths" // unusual URL paths: most of them are accepted, and the exporters turn them into keys
+			}
+			s += strings.ReplaceAll(defectBlock(kind, 70+i, r), "\n", nl)
 		}
 		root.Data = []byte(s)
 		p.Kind, p.Valid = "generated-type-uses", false
